@@ -226,9 +226,10 @@ class PlotCollection:
 
     def export(self, file_path: str, confirm_overwrite: bool = True) -> None:
         base, ext = os.path.splitext(file_path)
-        if not ext:
-            # savefig() appends the default format to names without extension,
-            # the overwrite check below has to look at those file names.
+        if ext in ("", "."):
+            # savefig() appends the default format to names without extension
+            # (also to "name."), the overwrite check below has to look at
+            # those file names.
             ext = "." + mpl.rcParams["savefig.format"]
             file_path = base + ext
         if ext == ".pdf" and not SETTINGS.plot_split:
